@@ -365,3 +365,63 @@ Proof.
   rewrite word_parts_eq_l. unfold class_runs, word_runs. apply filter_sorted.
   apply (wruns_sorted (length w)). apply Nat.le_refl.
 Qed.
+
+(** * [split_by]: the pieces are the maximal separator-free runs *)
+Section Split.
+Variable sep : N -> bool.
+Definition piece_ok (w : str) : Prop := w <> [] /\ forallb (fun c => negb (sep c)) w = true.
+
+Lemma push_piece_app w l r : push_piece w (l ++ r) = push_piece w l ++ r.
+Proof. destruct w; reflexivity. Qed.
+
+Lemma split_scan_by_app (u : str) : forall (s : str) W,
+  split_scan_by sep s = ([], W) ->
+  split_scan_by sep (u ++ s) = (fst (split_scan_by sep u), snd (split_scan_by sep u) ++ W).
+Proof.
+  induction u as [|a u IH]; intros s W Hs.
+  - cbn [app split_scan_by fst snd]. exact Hs.
+  - cbn [app split_scan_by]. rewrite (IH s W Hs). cbn [fst snd].
+    destruct (sep a); [cbn [fst snd]; rewrite push_piece_app|]; reflexivity.
+Qed.
+
+Lemma split_by_nil_l : split_by sep [] = [].
+Proof. reflexivity. Qed.
+
+Lemma split_by_sep_l (u : str) (c : cp) (v : str) : sep c = true -> split_by sep (u ++ c :: v) = split_by sep u ++ split_by sep v.
+Proof.
+  intros Hc. unfold split_by.
+  assert (Hs : split_scan_by sep (c :: v)
+               = ([], push_piece (fst (split_scan_by sep v)) (snd (split_scan_by sep v)))).
+  { cbn [split_scan_by]. rewrite Hc. reflexivity. }
+  rewrite (split_scan_by_app u _ _ Hs). cbn [fst snd]. rewrite push_piece_app. reflexivity.
+Qed.
+
+Lemma split_scan_by_word w : forallb (fun c => negb (sep c)) w = true -> split_scan_by sep w = (w, []).
+Proof.
+  induction w as [|c w IH]; intros H; [reflexivity|].
+  cbn [forallb] in H. apply andb_true_iff in H as [Hc Hw]. cbn [split_scan_by]. rewrite (IH Hw).
+  destruct (sep c); [discriminate|reflexivity].
+Qed.
+
+Lemma split_by_word_l w : piece_ok w -> split_by sep w = [w].
+Proof.
+  intros [Hne Hw]. unfold split_by. rewrite (split_scan_by_word w Hw). destruct w; [congruence|reflexivity].
+Qed.
+
+Lemma split_scan_by_wf s :
+  forallb (fun c => negb (sep c)) (fst (split_scan_by sep s)) = true /\ Forall piece_ok (snd (split_scan_by sep s)).
+Proof.
+  induction s as [|c s [IH1 IH2]]; [split; [reflexivity|constructor]|].
+  cbn [split_scan_by]. destruct (sep c) eqn:E; cbn [fst snd].
+  - split; [reflexivity|]. destruct (fst (split_scan_by sep s)) eqn:F; cbn [push_piece]; [exact IH2|].
+    constructor; [split; [discriminate|exact IH1]|exact IH2].
+  - split; [|exact IH2]. cbn [forallb]. rewrite E, IH1. reflexivity.
+Qed.
+
+Lemma split_by_ok_l s : Forall piece_ok (split_by sep s).
+Proof.
+  unfold split_by. destruct (split_scan_by_wf s) as [H1 H2].
+  destruct (fst (split_scan_by sep s)) eqn:F; cbn [push_piece]; [exact H2|].
+  constructor; [split; [discriminate|exact H1]|exact H2].
+Qed.
+End Split.
